@@ -92,6 +92,8 @@ class ReadRule(BaseRule):
         q = it.resolve_callee(node, recv)
         if q and it.m.is_exception_class(q):
             return [Out("normal", st, AV("exc", it.m.norm(q), truth=True, none=False))]
+        if q in it.inline:
+            return None  # an unmodelled private helper of the response: interpreted in place
         return [Out("normal", st, UNK)]
 
     def with_stmt(self, it, stmt, st):
@@ -129,7 +131,13 @@ def analyse_reader(ctx, name, params=None):
     bf = buffer_field(m)
     fi = m.method(HR, name)
     rule = ReadRule(bf)
-    outs, it = run_function(m, fi, rule, HR, params=params or {}, record_decisions=True,
+    modelled = {"_raw_read", "_handle_chunk", "_decode", "_flush_decoder", "_init_decoder", "_update_chunk_length", "_error_catcher", "_fp_read", "_init_length"}
+    helpers = set()
+    for cq in (HR, f"{RS}.BaseHTTPResponse"):
+        for n_, f_ in m.cls(cq).methods.items():
+            if n_.startswith("_") and not n_.startswith("__") and n_ not in modelled:
+                helpers.add(f_.qual)
+    outs, it = run_function(m, fi, rule, HR, inline=frozenset(helpers), params=params or {}, record_decisions=True,
                             seeds={("self", "_has_decoded_content"): AV("unk", sym="has_decoded"), ("self", "decode_content"): AV("unk", sym="self.decode_content"),
                                    ("self", "chunked"): AV("unk", sym="chunked"), ("self", "_fp"): AV("obj", "fp", truth=True, none=False),
                                    ("self", "chunk_left"): AV("unk", sym="chunk_left")})
@@ -174,18 +182,30 @@ def run(ctx):
     R2 = ctx.rule("C12-R2", "streaming never yields an empty piece: every yield of body bytes in stream / read_chunked is guarded by the truthiness of the yielded value", "E3")
     ny = 0
     for name in ("stream", "read_chunked"):
-        fi = m.method(HR, name)
-        for node in astq.walk_fn(fi.node):
-            if isinstance(node, ast.Yield) and node.value is not None:
+        fi, rule, outs = analyse_reader(ctx, name)
+        seen = set()
+        for kind, av, st, node in rule.delivered:
+            if kind != "yield":
+                continue
+            is_from = isinstance(getattr(node, "value", None), ast.YieldFrom)
+            if is_from:
                 ny += 1
-                g = astq.enclosing(node, ast.If)
-                ok = g is not None and astq.text(g.test) == astq.text(node.value) and astq.in_body_of(node, g, "body")
-                ctx.ob(R2, fi.qual, f"`yield {astq.text(node.value)}` guarded by `if {astq.text(g.test) if g is not None else ''}`", ok,
-                       "" if ok else "an empty bytes object can be yielded (callers treat it as end of stream)", node=node)
-            if isinstance(node, ast.YieldFrom):
-                ny += 1
-                ok = astq.call_text(node.value) == "self.read_chunked" if isinstance(node.value, ast.Call) else False
-                ctx.ob(R2, fi.qual, f"`yield from {astq.text(node.value)[:40]}` delegates to read_chunked", ok, node=node)
+                key = ("from", ast.unparse(node.value.value)[:40])
+                if key in seen:
+                    continue
+                seen.add(key)
+                ok = isinstance(node.value.value, ast.Call) and astq.call_text(node.value.value) == "self.read_chunked"
+                ctx.ob(R2, fi.qual, f"`yield from {astq.text(node.value.value)[:40]}` delegates to read_chunked", ok, node=node)
+                continue
+            ny += 1
+            v = st.view(av)
+            key = (v.truth, tuple(sorted(v.tags)))
+            if key in seen:
+                continue
+            seen.add(key)
+            ok = v.truth is True
+            ctx.ob(R2, fi.qual, f"a piece is yielded only when it is known to be non-empty (provenance {sorted(v.tags)})", ok,
+                   "" if ok else "an empty bytes object can be yielded (callers treat it as end of stream)", witness=st.witness(), node=node)
     ctx.sites(R2, ny, 3, "yields in stream / read_chunked")
 
     # ------------------------------------------------------------------ R3 decoder typestate
@@ -272,21 +292,46 @@ def run(ctx):
     # ------------------------------------------------------------------ R4 reverse order
     R4 = ctx.rule("C12-R4", "stacked codings are undone in reverse order of the header; flush flushes the decoder applied last", "E6")
     md = f"{RS}.MultiDecoder"
+    from ..rows import GenRule, effect_rows, private_helpers
+    from ..terms import K, T, destruct, norm, subterms
+
+    DEC = "self._decoders"
     dec = m.method(md, "decompress")
-    loops = [n for n in astq.walk_fn(dec.node) if isinstance(n, ast.For)]
-    ok = len(loops) == 1 and astq.text(loops[0].iter) == "reversed(self._decoders)"
-    ctx.ob(R4, dec.qual, f"iterates `{astq.text(loops[0].iter) if loops else ''}`", ok, "" if ok else "codings are undone in the order they were applied: gzip-then-deflate bodies come out as garbage")
-    if loops:
-        body = loops[0].body
-        lv = astq.text(loops[0].target)
-        ok = len(body) == 1 and isinstance(body[0], ast.Assign) and astq.text(body[0]) == f"data = {lv}.decompress(data)"
-        ctx.ob(R4, dec.qual, "each decoder consumes the previous decoder's output", ok)
+    drows = [r for r in effect_rows(ctx, dec, GenRule(ctx, RS), md) if r.returns]
+    pdata = "p:" + dec.params()[0]
+    REV = (T("reversed", DEC), T("slice", DEC, "", "", "-1"), T("list", T("star", T("reversed", DEC))), T("reversed", T("list", DEC)))
+    it_rows = [r for r in drows if r.events("call")]
+    ctx.sites(R4, len(it_rows), 1, "rows of MultiDecoder.decompress that decode")
+    seen = set()
+    for r in it_rows:
+        calls = r.events("call")
+        key = tuple(calls)
+        if key in seen:
+            continue
+        seen.add(key)
+        c = calls[0]
+        loops = c[-1][1:] if isinstance(c[-1], tuple) and c[-1][:1] == ("in",) else ()
+        ok_order = len(loops) == 1 and loops[0] in REV
+        ctx.ob(R4, dec.qual, f"the decoders are applied in the reverse of header order (iterates {loops[0][:50] if loops else 'nothing'})", ok_order,
+               "" if ok_order else "codings are undone in the order they were applied: gzip-then-deflate bodies come out as garbage", witness=r.witness(), node=dec.node)
+        I = loops[0] if loops else "?"
+        ok_chain = c[1] == f"each({I}).decompress" and c[2] == pdata and r.ret == T(f"each({I}).decompress", pdata) and len(calls) == 1
+        ctx.ob(R4, dec.qual, "each decoder consumes the previous decoder's output and the last output is returned", ok_chain, f"calls {calls}, returns {r.ret}", witness=r.witness(), node=dec.node)
     ini = m.method(md, "__init__")
-    ok = "modes.split(',')" in astq.text(ini.node).replace('"', "'") and "_get_decoder(m.strip())" in astq.text(ini.node)
-    ctx.ob(R4, ini.qual, "decoders are listed in header order", ok)
+    irows = [r for r in effect_rows(ctx, ini, GenRule(ctx, RS, pure_self=("_get_decoder",)), md) if r.returns]
+    pm = "p:" + ini.params()[0]
+    ok = bool(irows)
+    for r in irows:
+        st_ = [e for e in r.events("store") if e[2] == "_decoders"]
+        v = st_[-1][3] if st_ else ""
+        op, args = destruct(v)
+        SPL = T("split", pm, K(","))
+        ok = ok and op in ("listcomp", "list") and SPL in v and (T("_get_decoder", T("strip", T("each", SPL))) in v)
+    ctx.ob(R4, ini.qual, "decoders are listed in header order, one per comma-separated coding", ok, "; ".join(str(r.events("store"))[:100] for r in irows[:1]))
     fl = m.method(md, "flush")
-    ok = "return self._decoders[0].flush()" in astq.text(fl.node)
-    ctx.ob(R4, fl.qual, "flush() flushes the decoder applied last in decompress (first in header order)", ok)
+    frows = [r for r in effect_rows(ctx, fl, GenRule(ctx, RS), md) if r.returns]
+    ok = bool(frows) and all(r.ret == T(f"idx({DEC},0).flush") for r in frows)
+    ctx.ob(R4, fl.qual, "flush() flushes the decoder applied last in decompress (first in header order)", ok, "; ".join(r.ret for r in frows))
 
     # ------------------------------------------------------------------ R5 registry / guard agreement
     R5 = ctx.rule("C12-R5", "codec registry agreement: each optional codec is added to CONTENT_DECODERS, to _get_decoder and to DECODER_ERROR_CLASSES under the same availability guard", "E8")
